@@ -480,8 +480,12 @@ def restore_sites(ctx, res=None):
         pnames = [p["name"] for p in fn["params"]]
         initial = []
         vecs = {}
-        if all(x in pnames for x in INHERIT):
-            initial = [("fwd", "arg_values"), "receiver_value"]
+        # built-in handlers receive the values their caller popped: one `&Value` receiver and one `&[Value]` argument slice
+        # (found by type, so renaming the parameters changes nothing)
+        recv = [p_["name"] for p_ in fn["params"] if p_["ty"].replace(" ", "") == "&Value"]
+        argsl = [p_["name"] for p_ in fn["params"] if p_["ty"].replace(" ", "") == "&[Value]"]
+        if len(recv) == 1 and len(argsl) == 1:
+            initial = [("fwd", argsl[0]), recv[0]]
             inheritors.add(fn["name"])
         for name, idx in helpers.items():
             if name == fn["name"]:
